@@ -104,8 +104,18 @@ func (hw *histWorld) sendMonitor(m *bMint, amount uint64, fees bool, t *bToken) 
 		if maxPpk >= 1000 {
 			cls = "ppk>=1000"
 		}
-		hw.c.MonitorFail("C18", fmt.Sprintf("C18/send-e2e/handed-over-%s/fees=%v/%s", dir, fees, cls),
-			fmt.Sprintf("Send(%d, includeFees=%v) handed over proofs worth %d (%d proofs, mint input fee %d): the recipient nets %d", amount, fees, sum, len(t.proofs), mintFee, sum-mintFee), hw.b.replay())
+		// HOW the proofs were produced is part of the signature: the known finding K6 is the fee estimate of swapToSend
+		// (the Send made a POST /v1/swap); proofs taken from the store as they are ("offline") are a different code path
+		via := "offline"
+		hw.b.net.mu.Lock()
+		for _, r := range hw.b.net.Log[hw.b.logPos:] {
+			if r.Method == "POST" && r.Path == "/v1/swap" {
+				via = "swap"
+			}
+		}
+		hw.b.net.mu.Unlock()
+		hw.c.MonitorFail("C18", fmt.Sprintf("C18/send-e2e/handed-over-%s/fees=%v/%s/via=%s", dir, fees, cls, via),
+			fmt.Sprintf("Send(%d, includeFees=%v) handed over proofs worth %d (%d proofs, mint input fee %d, produced %s): the recipient nets %d", amount, fees, sum, len(t.proofs), mintFee, via, sum-mintFee), hw.b.replay())
 	}
 }
 
@@ -474,7 +484,7 @@ func runWalletHist(c *Ctx) {
 	if only >= 0 {
 		return
 	}
-	for k := 0; k < 12; k++ {
+	for k := 0; k < 16; k++ {
 		rotationNoticedBy(c, k)
 	}
 	longRun(c, 0)
@@ -770,13 +780,20 @@ func rotationNoticedBy(c *Ctx, k int) {
 	// k >= 8: the same, but the operator rotates the usual way: the mint is RESTARTED with another configured fee and
 	// the rotate flag (the keysets are rebuilt from their stored rows; an old keyset keeps the fee it was created with)
 	f0, f1, withFees := uint(0), uint(0), false
-	byRestart := k >= 8
+	byRestart := k >= 8 && k < 12
 	if k >= 4 {
 		f0, f1, withFees = 100, 500, true
 		if first == "receive" {
 			f0, f1 = 0, 1000
 		}
 		first += "+fee"
+	}
+	// k >= 12 (seeded change C18-7): the rotation goes from a fee-charging keyset to a keyset WITHOUT fee; the wallet
+	// still holds proofs of the old keyset, which the mint keeps charging for: a send with includeFees must add THEIR fee
+	toZero := k >= 12
+	if toZero {
+		f0, f1 = 1000, 0
+		first += "+tozero"
 	}
 	if byRestart {
 		first += "+restart"
@@ -905,6 +922,24 @@ func rotationNoticedBy(c *Ctx, k int) {
 	hw.model.sendLocked(hw, w, m, 5, false, t2, err2)
 	hw.after("rot/" + first + "/send-locked-3/" + errTag(err2))
 	mintN(w, 8, "mint-after")
+	if toZero {
+		// sends with includeFees whose amount is exactly an old-keyset coin (an offline selection of that coin alone is
+		// NOT exact: the mint charges 1 sat for it) and one sat less (that selection IS exact)
+		active := m.env.ActiveKeysetId()
+		var olds []uint64
+		seen := map[uint64]bool{}
+		for _, p := range w.W.VerifDB().GetProofs() {
+			if p.Id != active && p.Amount >= 2 && !seen[p.Amount] && len(olds) < 3 {
+				seen[p.Amount] = true
+				olds = append(olds, p.Amount)
+			}
+		}
+		c.Hist("rot-tozero", fmt.Sprintf("old-keyset-coins=%d", len(olds)))
+		for _, a := range olds {
+			sendN(w, a, "old-coin-amount")
+			sendN(w, a-1, "old-coin-amount-minus-fee")
+		}
+	}
 }
 
 // longRun: > 300 outputs on one keyset, rotation, restore -> continue -> restore, with ordinary traffic in between.
